@@ -60,6 +60,26 @@ theorem deep_equal_not_symmetric : facts.commaOk = false →
     deepEqual facts Witness.P (.struct 1) Witness.m10 Witness.m25 = .ok true ∧
     deepEqual facts Witness.P (.struct 1) Witness.m25 Witness.m10 = .ok false := by decide
 
+/-- no false negatives: in a program without struct-typed map keys, two structurally equal values are reported equal
+(what remains wrong there only makes DIFFERENT values compare equal) -/
+theorem deep_equal_no_false_negative (P : Prog) (hP : P.noStructKey = true) (ty : Ty) (hty : ty.noStructKey = true)
+    (a b : GoVal) (h : valEq P ty a b = true) : deepEqual facts P ty a b = .ok true :=
+  valEq_deepEqual facts facts_current P hP a ty b hty h
+
+example : Witness.P1.noStructKey = true ∧ (Ty.struct 1).noStructKey = true ∧
+    valEq Witness.P1 (.struct 1) Witness.m10 Witness.m10 = true := by decide
+
+/-- reflexive on deep copies: a value without NaN whose struct-keyed maps are empty (and that respects Go's typing:
+map keys pairwise different) is DeepEqual to its deep copy. Both exclusions are necessary: see
+`deep_equal_iff_fails_struct_key` and `deep_copy_nan` below. -/
+theorem deep_equal_refl (P : Prog) (ty : Ty) (a : GoVal) (h : selfOK P ty a = true) :
+    deepEqual facts P ty a a = .ok true :=
+  deepEqual_refl facts facts_current P a ty h
+
+example : selfOK Witness.P (.struct 1) Witness.m13 = true := by decide
+/-- a NaN is not equal to its copy (Go `==`), so neither is the struct holding it — unless it is the same pointer -/
+example : deepEqual facts Witness.PD (.struct 0) (.strct [.dbl 0x7ff8000000000000]) (.strct [.dbl 0x7ff8000000000000]) = .ok false := by decide
+
 /-- `x.DeepEqual(x)` (the same pointer) is true whatever x holds (pointer shortcut), NaN included -/
 theorem deep_equal_identical (P : Prog) (i : Nat) (a b : GoVal) : deepEqualTop facts P i true a b = .ok true := rfl
 
